@@ -1,2 +1,342 @@
-//! placeholder – fault-point inspectors (filled in with the C06 harnesses)
-pub fn at_fault(_which: u8) {}
+//! C06 – panicking or misreporting user code cannot corrupt a vector.
+//!
+//! Kani cannot unwind. "The k-th invocation of user code panics" is encoded as: at tick number
+//! FAULT_AT (solver-chosen) the inspector below looks at every registered vector *at that instant*
+//! and the path ends. Native replay panics for real at the same tick, unwinds through the library,
+//! and the harness then inspects, uses and drops the vectors.
+
+use crate::backends::Backend;
+use crate::c02::{fill_slots, Rep, RepT, RMAX};
+use crate::c03::check_valid_leaky;
+use crate::elems::{self, Elem};
+use crate::fault;
+use crate::model::*;
+use crate::state::*;
+use crate::sym::*;
+use crate::vp_assert;
+use any_vec::any_value::*;
+use any_vec::traits::{Cloneable, Trait};
+use any_vec::{AnyVec, SatisfyTraits};
+use core::marker::PhantomData;
+use core::mem::MaybeUninit;
+
+pub static mut F_V: [*const (); 2] = [core::ptr::null(); 2];
+pub static mut F_FN: Option<fn()> = None;
+
+pub fn reset() {
+    unsafe {
+        F_V = [core::ptr::null(); 2];
+        F_FN = None;
+    }
+}
+
+pub struct FaultPanic;
+
+pub fn at_fault(_which: u8) {
+    unsafe {
+        if let Some(f) = F_FN {
+            f();
+        }
+    }
+    #[cfg(kani)]
+    stop_path("fault point inspected");
+    #[cfg(not(kani))]
+    std::panic::panic_any(FaultPanic);
+}
+
+/// what every vector must satisfy at any instant user code can observe it (and after unwinding)
+fn inspect_one<Tr: ?Sized + Trait, B: Backend, E: Elem>(v: &AnyVec<Tr, B>, other: Option<&AnyVec<Tr, B>>) {
+    vp_assert!(v.len() <= v.capacity(), "VP: len exceeds capacity at a fault point");
+    if E::ZST {
+        return;
+    }
+    let t = v.downcast_ref::<E>().unwrap();
+    let s = t.as_slice();
+    let a = any_usize();
+    let b = any_usize();
+    let one = |a: usize, b: usize| {
+        if a < s.len() {
+            vp_assert!(s[a].intact(), "VP: a corrupted element is visible at a fault point");
+            if E::TRACKED {
+                vp_assert!(elems::live(s[a].id()) == 1, "VP: an element that is not alive (destroyed / being destroyed / moved out) is visible at a fault point");
+            }
+            if b < s.len() && a != b {
+                vp_assert!(s[a].id() != s[b].id(), "VP: the same element is visible twice at a fault point");
+            }
+            if let Some(o) = other {
+                let so = o.downcast_ref::<E>().unwrap();
+                let so = so.as_slice();
+                if b < so.len() {
+                    vp_assert!(s[a].id() != so[b].id(), "VP: the same element is visible in two vectors at a fault point");
+                }
+            }
+        }
+    };
+    #[cfg(kani)]
+    one(a, b);
+    #[cfg(not(kani))]
+    {
+        let _ = (a, b);
+        let n = s.len().max(other.map(|o| o.len()).unwrap_or(0));
+        for a in 0..s.len() {
+            for b in 0..n {
+                one(a, b);
+            }
+        }
+    }
+}
+
+fn inspect_mono<Tr: ?Sized + Trait, B: Backend, E: Elem>() {
+    unsafe {
+        let v0 = if F_V[0].is_null() { None } else { Some(&*(F_V[0] as *const AnyVec<Tr, B>)) };
+        let v1 = if F_V[1].is_null() { None } else { Some(&*(F_V[1] as *const AnyVec<Tr, B>)) };
+        if let Some(v) = v0 {
+            inspect_one::<Tr, B, E>(v, v1);
+        }
+        if let Some(v) = v1 {
+            inspect_one::<Tr, B, E>(v, None);
+        }
+    }
+}
+
+pub fn arm<Tr: ?Sized + Trait, B: Backend, E: Elem>(v0: &AnyVec<Tr, B>, v1: Option<&AnyVec<Tr, B>>, fmax: usize) {
+    unsafe {
+        F_V[0] = v0 as *const AnyVec<Tr, B> as *const ();
+        F_V[1] = match v1 {
+            Some(v) => v as *const AnyVec<Tr, B> as *const (),
+            None => core::ptr::null(),
+        };
+        F_FN = Some(inspect_mono::<Tr, B, E>);
+        let k = any_usize();
+        assume(k >= 1 && k <= fmax);
+        fault::FAULT_AT = k;
+        fault::TICKS = 0;
+        fault::FAULTED = false;
+    }
+}
+
+pub fn disarm() {
+    unsafe {
+        fault::FAULT_AT = 0;
+    }
+}
+
+/// runs `f`; natively a fault panic is caught (anything else is propagated)
+pub fn guard<F: FnOnce()>(f: F) {
+    #[cfg(kani)]
+    f();
+    #[cfg(not(kani))]
+    {
+        let r = std::panic::catch_unwind(std::panic::AssertUnwindSafe(f));
+        if let Err(e) = r {
+            if e.downcast_ref::<FaultPanic>().is_none() {
+                std::panic::resume_unwind(e);
+            }
+        }
+    }
+}
+
+#[derive(Copy, Clone, Debug, PartialEq, Eq)]
+pub enum Scn {
+    Clear,
+    TClear,
+    DropVec,
+    RemoveDrop,
+    SwapRemoveDrop,
+    PopDrop,
+    DrainDrop,
+    TDrainDrop,
+    SpliceWrapper,
+    SpliceRaw,
+    TSplice,
+}
+
+/// single-vector scenarios: Drop of elements and replacement-iterator `next` are the user code
+pub fn fault_h<Tr: ?Sized + Trait, B: Backend, E: Elem + SatisfyTraits<Tr>>(p: crate::c02::P2, scn: Scn, fmax: usize) {
+    reset_all();
+    reset();
+    let (v, m) = build::<Tr, B, E>(p.cap, p.len, 0);
+    let len = m.len;
+    let mut vbox = core::mem::ManuallyDrop::new(v);
+    let vp: *mut AnyVec<Tr, B> = &mut *vbox;
+    let v = unsafe { &mut *vp };
+    let mut slots: [MaybeUninit<E>; RMAX] = unsafe { MaybeUninit::uninit().assume_init() };
+    let sp = slots.as_mut_ptr() as *mut E;
+    let s = p.start.get();
+    let e = p.end.get();
+    assume(s <= e && e <= len);
+    let f = any_usize();
+    assume(f <= p.fb && f <= e - s);
+    let n = p.r.get();
+    assume(n <= 2);
+    let is_splice = matches!(scn, Scn::SpliceWrapper | Scn::SpliceRaw | Scn::TSplice);
+    if is_splice {
+        if !B::RESIZABLE {
+            assume(len - (e - s) + n <= v.capacity());
+        }
+        let _ = fill_slots::<E>(&mut slots, n);
+    }
+    arm::<Tr, B, E>(v, None, fmax);
+    let mut dropped_vec = false;
+    guard(|| match scn {
+        Scn::Clear => v.clear(),
+        Scn::TClear => v.downcast_mut::<E>().unwrap().clear(),
+        Scn::DropVec => {
+            dropped_vec = true;
+            unsafe { core::ptr::drop_in_place(vp) };
+        }
+        Scn::RemoveDrop => {
+            if s < len {
+                drop(v.remove(s));
+            }
+        }
+        Scn::SwapRemoveDrop => {
+            if s < len {
+                drop(v.swap_remove(s));
+            }
+        }
+        Scn::PopDrop => {
+            drop(v.pop());
+        }
+        Scn::DrainDrop => {
+            let mut d = v.drain(s..e);
+            let mut k = 0;
+            while k < p.fb {
+                if k < f {
+                    drop(d.next_back());
+                }
+                k += 1;
+            }
+            drop(d);
+        }
+        Scn::TDrainDrop => {
+            let mut t = v.downcast_mut::<E>().unwrap();
+            let mut d = t.drain(s..e);
+            let mut k = 0;
+            while k < p.fb {
+                if k < f {
+                    drop(d.next());
+                }
+                k += 1;
+            }
+            drop(d);
+        }
+        Scn::SpliceWrapper => {
+            drop(v.splice(s..e, Rep::<E, false> { slots: sp, n, k: 0, delta: 0, ph: PhantomData }));
+        }
+        Scn::SpliceRaw => {
+            drop(v.splice(s..e, Rep::<E, true> { slots: sp, n, k: 0, delta: 0, ph: PhantomData }));
+        }
+        Scn::TSplice => {
+            let mut t = v.downcast_mut::<E>().unwrap();
+            drop(t.splice(s..e, RepT::<E> { slots: sp, n, k: 0, delta: 0 }));
+        }
+    });
+    disarm();
+    if !dropped_vec {
+        let v = unsafe { &mut *vp };
+        // after the operation (native: also after a real unwind) the vector is valid, usable, droppable
+        check_valid_leaky::<Tr, B, E>(v, &m, 0);
+        if B::RESIZABLE || v.len() < v.capacity() {
+            v.push(AnyValueWrapper::new(E::make(NEW_ID + 3, 9)));
+        }
+        check_valid_leaky::<Tr, B, E>(v, &m, 0);
+        unsafe { core::ptr::drop_in_place(vp) };
+    }
+    check_all_gone::<E>(true);
+    reached_end();
+}
+
+#[derive(Copy, Clone, Debug, PartialEq, Eq)]
+pub enum CScn {
+    CloneVec,
+    PushLazy,
+    InsertLazy,
+    SpliceLazy,
+    LazyDowncast,
+}
+
+/// scenarios where element Clone is the user code (two vectors: source `y`, destination `v`)
+pub fn fault_clone_h<Tr: ?Sized + Trait + Cloneable, B: Backend, E: Elem + SatisfyTraits<Tr>>(p: crate::c01::P, scn: CScn, fmax: usize) {
+    reset_all();
+    reset();
+    let (mut v, m) = build::<Tr, B, E>(p.cap, p.len, 0);
+    let (y, my) = build::<Tr, B, E>(p.cap2, p.len2, E::YBASE);
+    let i = p.idx.get();
+    assume(i <= m.len);
+    let j = p.idx2.get();
+    assume(j < my.len);
+    if !B::RESIZABLE {
+        assume(m.len < v.capacity());
+    }
+    arm::<Tr, B, E>(&v, Some(&y), fmax);
+    let mut keep_clone: Option<AnyVec<Tr, B>> = None;
+    guard(|| match scn {
+        CScn::CloneVec => {
+            keep_clone = Some(y.clone());
+        }
+        CScn::PushLazy => v.push(y.at(j).lazy_clone()),
+        CScn::InsertLazy => v.insert(i, y.at(j).lazy_clone()),
+        CScn::SpliceLazy => {
+            let r = y.at(j);
+            drop(v.splice(i..i, core::iter::once(r.lazy_clone())));
+        }
+        CScn::LazyDowncast => {
+            let r = y.at(j);
+            drop(r.lazy_clone().downcast::<E>());
+        }
+    });
+    disarm();
+    check_valid_leaky::<Tr, B, E>(&v, &m, if scn == CScn::PushLazy { m.len } else { 0 });
+    check_vec::<Tr, B, E>(&y, &my);
+    if let Some(c) = keep_clone {
+        check_valid_leaky::<Tr, B, E>(&c, &my, 0);
+        drop(c);
+    }
+    drop(v);
+    drop(y);
+    check_all_gone::<E>(true);
+    reached_end();
+}
+
+/// a replacement iterator whose len() is off by `delta` in -2..=2 from what it yields
+pub fn liar_h<Tr: ?Sized + Trait, B: Backend, E: Elem + SatisfyTraits<Tr>>(p: crate::c02::P2, typed: bool) {
+    reset_all();
+    reset();
+    let (mut v, m) = build::<Tr, B, E>(p.cap, p.len, 0);
+    let len = m.len;
+    let s = p.start.get();
+    let e = p.end.get();
+    assume(s <= e && e <= len);
+    let n = p.r.get();
+    assume(n <= 2);
+    let d = any_usize();
+    assume(d <= 4);
+    let delta = d as isize - 2;
+    assume(n as isize + delta >= 0);
+    if !B::RESIZABLE {
+        // room for what it yields and for what it claims
+        assume(len - (e - s) + n <= v.capacity() && len - (e - s) + (n as isize + delta) as usize <= v.capacity());
+    }
+    let mut slots: [MaybeUninit<E>; RMAX] = unsafe { MaybeUninit::uninit().assume_init() };
+    let sp = slots.as_mut_ptr() as *mut E;
+    let _ = fill_slots::<E>(&mut slots, n);
+    if typed {
+        let mut t = v.downcast_mut::<E>().unwrap();
+        drop(t.splice(s..e, RepT::<E> { slots: sp, n, k: 0, delta }));
+    } else {
+        drop(v.splice(s..e, Rep::<E, true> { slots: sp, n, k: 0, delta, ph: PhantomData }));
+    }
+    check_valid_leaky::<Tr, B, E>(&v, &m, s);
+    if delta == 0 {
+        vp_assert!(v.len() == len - (e - s) + n, "VP: honest splice produced a wrong length");
+    }
+    if B::RESIZABLE || v.len() < v.capacity() {
+        v.push(AnyValueWrapper::new(E::make(NEW_ID + 3, 9)));
+    }
+    check_valid_leaky::<Tr, B, E>(&v, &m, s);
+    drop(v);
+    // items the iterator never handed out stay owned by the harness slots: leaks_ok
+    check_all_gone::<E>(true);
+    reached_end();
+}
